@@ -101,3 +101,10 @@ CLAIMED["C11"] = ("monotone census of calls, constant-folded arguments and data 
   "(total order) compressed keys of the whole map, SHA-256, 00 + 14 hex; NUT-13 indices 129372'/0'/(BE uint64 of id mod 2^31-1)'/counter'/{0,1} "
   "with standard derivation; mint path 0'/0'/idx'; wallet P2PK path. Adding code never fires it; replacing a construct does.",
   TRUST + " Numeric equality with an independent implementation is out of reach of this technique family.", "DESIGN.md §3 C11")
+CLAIMED["C16"] = ("schema folding + view/SQL agreement + edge-cut limit guards with syntactic linear forms + phi-edge exactness of the disabled flag",
+  "Decides that the balance views are exact integer per-keyset sums over the signature and spent tables (final definitions), that the balance "
+  "is their difference over all entries, that mint quotes are created only behind the amount and overflow-checked balance limits, melt quotes "
+  "only behind the melt limit on the stored amount, that 'disabled' is true exactly on the max-set-and-reached paths and that the info handler "
+  "never answers from a cache. Right level: limits at every boundary incl. 2^64 are guard-shape facts; equality of the views with a reference "
+  "ledger over histories is not claimed.",
+  TRUST, "DESIGN.md §3 C16")
